@@ -728,6 +728,90 @@ def rule_lifecycle(prog):
         # (e) falls through to Ok(())
         out.add("server::phases::" + name, "end of input falls through to Ok(())", _tail_ok(prog, b), c.loc(b["sp"]),
                 "when the client's stream ends the phase must return normally", ("eof",))
+    # (h) handshake order: the `initialized` notification leads out of the initialization phase only where an `initialize` request
+    #     has been answered with a result.  Decided over the paths through the phase function: reader loops are left by `break` /
+    #     `return` or by the end of the input; the end of the input is final (no later loop reads another message), so a path on
+    #     which an earlier reader loop was not left by `break` is not a path on which a message arrives later.  On every remaining
+    #     path that reaches the exit under the `Initialized::METHOD` test, an into_result_response lies in front of it.
+    ib = phases["initialization"]
+    iloops = [lp for lp, fb_ in _phase_loops(prog, ib) if fb_ is ib]
+    all_iloops = _phase_loops(prog, ib)
+
+    def tests_initialized(cond):
+        for bn in hir.nodes(hir.strip(cond), "Binary"):
+            if bn["op"] == "==" and "Initialized" in (method_of(c, bn["l"]), method_of(c, bn["r"])):
+                return True
+        return False
+
+    init_exits = []      # (exit node, parents)
+    for n_, parents_ in hir.walk(ib["body"]):
+        if n_.get("k") not in ("Break", "Ret"):
+            continue
+        under = False
+        for i_, pr_ in enumerate(parents_):
+            nxt_ = parents_[i_ + 1] if i_ + 1 < len(parents_) else n_
+            if pr_.get("k") == "If" and tests_initialized(pr_["cond"]) and (nxt_ is pr_.get("then") or _contains(pr_.get("then") or {}, n_)):
+                under = True
+            if pr_.get("k") == "Arm":
+                pc_ = _pat_const(pr_["pat"])
+                if (pc_ and method_of(c, pc_) == "Initialized") or (pr_.get("guard") is not None and tests_initialized(pr_["guard"])):
+                    under = True
+        if under:
+            init_exits.append((n_, list(parents_)))
+    if len(all_iloops) != len(iloops) or not iloops:
+        if all_iloops:
+            out.add("server::phases::initialization", "`initialized` is honoured only after `initialize` was answered", None, c.loc(ib["sp"]),
+                    "the reader loops of the phase sit in helper functions: the handshake order is not followed across them", ("shape", "order"))
+    elif not init_exits:
+        out.add("server::phases::initialization", "`initialized` is honoured only after `initialize` was answered", None, c.loc(ib["sp"]),
+                "no exit under a test of Initialized::METHOD found", ("shape", "order"))
+    else:
+        loop_of = {}
+        for lp in iloops:
+            for x_ in hir.nodes(lp["body"]):
+                if x_.get("k") == "Break":
+                    loop_of.setdefault(id(x_), lp)      # (innermost wins below: nested loops overwrite)
+        for lp in iloops:
+            for inner_lp in hir.nodes(lp["body"]):
+                if inner_lp.get("k") in ("While", "Loop", "ForLoop") and inner_lp is not lp:
+                    for x_ in hir.nodes(inner_lp["body"], "Break"):
+                        loop_of[id(x_)] = inner_lp
+        exit_ids = {id(n_) for n_, _ in init_exits}
+
+        def ev_h(n_):
+            if n_.get("k") == "MethodCall" and (n_.get("d") or "").startswith("io::PreparedResponse::into_result_response"):
+                return ("result", n_)
+            return None
+        verdict_h, why_h, loc_h = True, "", c.loc(ib["sp"])
+        try:
+            ps_h = flow.paths(_async_block(ib) or ib["body"], ev_h)
+        except OverflowError:
+            ps_h, verdict_h = [], None
+        for n_, parents_ in init_exits:
+            # a flag that remembers the answered `initialize` and guards this exit: a value this rule does not follow
+            flagged = any(pr_.get("k") == "If" and any(
+                (hir.path_local(x_) or {}).get("id") is not None and c.tstr(x_["t"]) == "bool" and any(
+                    a_.get("k") == "Assign" and (hir.path_local(hir.strip(a_["l"])) or {}).get("id") == hir.path_local(x_)["id"]
+                    for a_ in hir.nodes(ib["body"], "Assign"))
+                for x_ in hir.nodes(pr_["cond"], "Path")) for pr_ in parents_)
+            before_loops = [lp for lp in iloops if not _contains(lp, n_) and lp["sp"][1] < n_["sp"][1]]
+            for p_ in ps_h:
+                idx = [j_ for j_, e_ in enumerate(p_) if e_[0] in ("break", "loop-break", "return") and len(e_) > 1 and e_[1] is n_]
+                if not idx:
+                    continue
+                pre = p_[:idx[0]]
+                live = all(any(e_[0] == "loop-break" and loop_of.get(id(e_[1])) is lp for e_ in pre) for lp in before_loops)
+                if not live:
+                    continue
+                if not any(e_[0] == "result" for e_ in pre):
+                    if flagged:
+                        verdict_h = None if verdict_h is True else verdict_h
+                    else:
+                        verdict_h, loc_h = False, c.loc(n_["sp"])
+                        why_h = "a path reaches this exit without an `initialize` request having been answered with a result"
+        out.add("server::phases::initialization", "`initialized` is honoured only after `initialize` was answered", verdict_h, loc_h,
+                "%s: a client that sends `initialized` first moves the server into the main phase without capabilities having been "
+                "exchanged; its later `initialize` is then answered as a second one" % (why_h or "-"), ("shape", "order"))
     # (i) ids: JSON-RPC / LSP request ids are integers *or strings*.  Message is an untagged enum: a request whose id does not fit
     #     the type of Request.id does not match the Request variant, falls through to Notification (unknown fields are ignored) and is
     #     dropped as an unknown notification - it never gets a response.
